@@ -80,6 +80,22 @@ def subminute(v):
     return False
 
 
+F57 = 'F57-stale-subtype-hook-after-timestamp-rebind'
+
+
+def in_f57(c):
+    """history members-alone-first + TIMESTAMP + a value that is an instance of a SUBCLASS of date/datetime"""
+    def sub_dt(v):
+        if isinstance(v, dict):
+            if v.get('v') == 'tok' and v.get('k') in ('date', 'datetime') and v.get('sub'):
+                return True
+            return any(sub_dt(x) for x in v.values())
+        if isinstance(v, list):
+            return any(sub_dt(x) for x in v)
+        return False
+    return bool(c.get('pre_dump')) and c['cfg'].get('dt') == 'TIMESTAMP' and sub_dt(c['value'])
+
+
 def nontrivial_type(ty):
     return ty['t'] not in ('bool', 'int', 'float', 'str', 'none', 'any')
 
@@ -347,7 +363,10 @@ def run(ctx):
         if subminute(c['value']):
             ctx.hist('subminute_offset_cases', c['src'])
         if bad:
-            ctx.violation('C03 direct predicate fails: %s' % '; '.join(bad), {'kind': 'case', 'case': strip(c)})
+            if in_f57(c) and ctx.is_open_region(F57) and bad == ['asdict(x) differs from the documented encoding']:
+                ctx.hist('known_region', F57)
+            else:
+                ctx.violation('C03 direct predicate fails: %s' % '; '.join(bad), {'kind': 'case', 'case': strip(c)})
         if i in model:
             ctx.traces_validated += 1
             if 'show_dump' in res and model[i] != res['show_dump']:
